@@ -1721,13 +1721,13 @@ def run(ctx: Ctx) -> None:
         run_case(ctx, data)
     restart_check(ctx, 150 if ctx.tier == "quick" else 1500)
     birthday(ctx, 1 << 18 if ctx.tier == "quick" else 1 << 20)
-    run_pool(ctx, ctx.budget(5000, 250000), True, "gen")
+    run_pool(ctx, ctx.budget(5000, 200000), True, "gen")
     ctx.extra["oracle_failures_by_signature"] = ctx.extra.pop("_per_signature", {})
 
 
 def search(ctx: Ctx, broken: list) -> None:
     """A proof or the correspondence is broken and the oracle saw nothing: larger budget, oracle only."""
-    run_pool(ctx, ctx.budget(5000, 250000) * (10 if ctx.tier == "quick" else 2), False, "search")
+    run_pool(ctx, ctx.budget(5000, 200000) * (10 if ctx.tier == "quick" else 2), False, "search")
     ctx.extra["oracle_failures_by_signature"] = ctx.extra.pop("_per_signature", {})
 
 
